@@ -45,6 +45,7 @@ pub fn run_case<G: AffineRepr>(run: u64, case: &Case, st: &mut Stats) {
         WFault::GateOut { gate, .. } | WFault::GateLeft { gate, .. } | WFault::GateRight { gate, .. } => {
             if *gate < n1 { "p1" } else { "p2" }
         }
+        WFault::ConstantPair { .. } => "p1",
         WFault::WireValue { at, .. } | WFault::Constant { at, .. } => {
             if at.1.is_some() { "p2" } else { "p1" }
         }
